@@ -196,6 +196,7 @@ def run_sac(sc):
     w = _Watches(rec)
     for k, v in dict(policy=policy, q=q, q_target=qtgt, alpha=ent._alpha).items():
         w.add(k, v)
+    rec.watch_law("q_target", qtgt, q, 0.25)  # coordinator: Polyak law at the call site (LoopTrace TargetLawInRun)
     pd, tnd = sc.get("policy_delay", 2), sc.get("target_network_delay", 3)
     kwargs = dict(seed=seed, total_timesteps=sc["budget"], gamma=0.5, tau=0.25, batch_size=sc["batch"], learning_starts=warm,
                   policy_delay=pd, target_network_delay=tnd, autotune=True, replay_buffer=buf, q_target=qtgt, entropy_control=ent,
@@ -249,6 +250,8 @@ def _td7(name, sc, use_checkpoints):
     w = _Watches(rec)
     for k, v in mods.items():
         w.add(k, v)
+    rec.watch_law("policy_target", atgt, actor, 1.0)  # coordinator: TD7's targets are hard copies
+    rec.watch_law("q_target", ctgt, critic, 1.0)
     made = []
 
     def created(emb, act):  # the SALE policies the routine builds: acting, target, checkpoint (td7.py 710-720)
